@@ -370,7 +370,7 @@ func livenessProbe(mc *Machine) string {
 	select {
 	case <-done:
 		return ""
-	case <-time.After(20 * time.Second):
+	case <-after(20 * time.Second):
 		return fmt.Sprintf("the collection is not usable any more: a transaction writing to %d block(s) did not complete within 20 s (a lock is still held)", len(targets))
 	}
 }
